@@ -7,6 +7,10 @@
 //   D <w> <cb> set|unset|cas|get <id> ; D <w> <cb> size|empty|clear|copy|iter
 //   S set|get|getb <id> ; S sortu|size|list|clear ; S merge id id ...
 //   R reset ; R add <member> <parent> ; R size ; R build m2p|p2m|both ; R look m2p|p2m <k>
+//   R hist <n> m1 r1 .. mn rn k1 .. kp      one whole history on FRESH objects: the n adds, then every builder,
+//                                           size()/empty() of every index and for_each(k) for every probe k
+//   S hist <n> id1 .. idn <m> o1 .. om k1 .. kp   fresh IdSetSmall: n set()s, raw content, sort_unique, merge_sorted
+//                                           with the set built from o1..om, get/get_binary_search of every probe
 //   I new <ibs> ; I add <hex> ; I get <h> ; I rm <h> ; I gc ; I clear ; I size ; I idx
 #include "common.hpp"
 
@@ -147,7 +151,71 @@ struct SmallBox {
     std::set<uint64_t> oracle;
     bool sorted = true;
 
+    // one whole history on a fresh set (the exhaustive small-history streams of tools/props/c15.py):
+    //   raw <list> | get <bits> | sorted <list> | getb <bits> | merged <list> | getb <bits>
+    static std::string hist(const vec& w) {
+        uint64_t n = 0, m = 0;
+        if (w.size() < 4 || !parse_u64(w[2], n) || w.size() < 4 + n) return "bad-op";
+        if (!parse_u64(w[3 + n], m) || w.size() < 4 + n + m) return "bad-op";
+        std::vector<uint64_t> ids, others, probes;
+        for (std::size_t i = 3; i < w.size(); ++i) {
+            if (i == 3 + n) continue;
+            uint64_t id = 0;
+            if (!parse_u64(w[i], id)) return "bad-op";
+            (i < 3 + n ? ids : i < 4 + n + m ? others : probes).push_back(id);
+        }
+        osmium::index::IdSetSmall<uint64_t> s;
+        std::set<uint64_t> oracle;
+        std::string mon;
+        for (const auto id : ids) {
+            s.set(id);
+            oracle.insert(id);
+        }
+        std::string out = "raw " + list_str(std::vector<uint64_t>(s.begin(), s.end()));
+        if (s.empty() != oracle.empty()) mon += " !small-empty";
+        out += " | get ";
+        for (const auto k : probes) {
+            const bool r = s.get(k);
+            out += b01(r);
+            if (r != (oracle.count(k) != 0)) mon += " !small-get";
+        }
+        s.sort_unique();
+        {
+            const std::vector<uint64_t> got(s.begin(), s.end());
+            out += " | sorted " + list_str(got);
+            if (got != std::vector<uint64_t>(oracle.begin(), oracle.end())) mon += " !small-list";
+            if (s.size() != oracle.size()) mon += " !small-size";
+        }
+        out += " | getb ";
+        for (const auto k : probes) {
+            const bool r = s.get_binary_search(k);
+            out += b01(r);
+            if (r != (oracle.count(k) != 0) || s.get(k) != r) mon += " !small-getb";
+        }
+        osmium::index::IdSetSmall<uint64_t> other;
+        for (const auto id : others) {
+            other.set(id);
+            oracle.insert(id);
+        }
+        other.sort_unique();
+        s.merge_sorted(other);
+        {
+            const std::vector<uint64_t> got(s.begin(), s.end());
+            out += " | merged " + list_str(got);
+            if (got != std::vector<uint64_t>(oracle.begin(), oracle.end())) mon += " !small-list";
+            if (s.size() != oracle.size()) mon += " !small-size";
+        }
+        out += " | getb ";
+        for (const auto k : probes) {
+            const bool r = s.get_binary_search(k);
+            out += b01(r);
+            if (r != (oracle.count(k) != 0) || s.get(k) != r) mon += " !small-getb";
+        }
+        return out + mon;
+    }
+
     std::string op(const vec& w) {
+        if (w.size() >= 2 && w[1] == "hist") return hist(w);
         if (w.size() >= 2 && w[1] == "merge") {
             osmium::index::IdSetSmall<uint64_t> other;
             for (std::size_t i = 2; i < w.size(); ++i) {
@@ -225,7 +293,86 @@ struct RelBox {
         return std::to_string(ix.size()) + " " + b01(ix.empty()) + (ix.size() == distinct ? "" : " !index-size");
     }
 
+    // for_each(k) as a LIST (a value delivered twice is visible), compared with the sorted partners of k in `oracle`
+    static std::string look_str(const osmium::index::RelationsMapIndex& ix, bool is_m2p, id_t k,
+                                const std::set<std::pair<id_t, id_t>>& oracle, std::string& mon) {
+        std::vector<uint64_t> got;
+        ix.for_each(k, [&](id_t v) { got.push_back(v); });
+        std::vector<uint64_t> want;
+        for (const auto& p : oracle) {
+            if (is_m2p && p.first == k) want.push_back(p.second);
+            if (!is_m2p && p.second == k) want.push_back(p.first);
+        }
+        std::sort(want.begin(), want.end());
+        if (got != want) mon += " !lookup";
+        std::string out = " " + std::to_string(got.size());
+        for (std::size_t i = 0; i < got.size(); ++i) {
+            out += i == 0 ? ':' : ',';
+            out += std::to_string(got[i]);
+        }
+        return out;
+    }
+
+    static std::string index_str(const osmium::index::RelationsMapIndex& ix, bool is_m2p, const std::vector<id_t>& probes,
+                                 const std::set<std::pair<id_t, id_t>>& oracle, std::string& mon) {
+        std::string out = std::to_string(ix.size()) + " " + b01(ix.empty());
+        if (ix.size() != oracle.size()) mon += " !index-size";
+        if (ix.empty() != oracle.empty()) mon += " !index-empty";
+        for (const auto k : probes) out += look_str(ix, is_m2p, k, oracle, mon);
+        return out;
+    }
+
+    // one whole history on fresh objects (the exhaustive small-history stream of tools/props/c15.py):
+    //   S <size> <n32> <n64> <empty> | M <index> | P <index> | BM <index> | BP <index> | B <size> <empty>
+    //   <index> = <size> <empty> then per probe <count>[:v,v,..]   (M/P: the single builders, BM/BP: build_indexes())
+    static std::string hist(const vec& w) {
+        uint64_t n = 0;
+        if (w.size() < 3 || !parse_u64(w[2], n) || w.size() < 3 + 2 * n) return "bad-op";
+        std::vector<id_t> v;
+        for (std::size_t i = 3; i < w.size(); ++i) {
+            uint64_t id = 0;
+            if (!parse_u64(w[i], id)) return "bad-op";
+            v.push_back(id);
+        }
+        const std::vector<id_t> probes(v.begin() + 2 * n, v.end());
+        std::set<std::pair<id_t, id_t>> oracle;
+        const auto filled = [&]() {
+            osmium::index::RelationsMapStash st;
+            for (std::size_t i = 0; i < n; ++i) st.add(v[2 * i], v[2 * i + 1]);
+            return st;
+        };
+        for (std::size_t i = 0; i < n; ++i) oracle.emplace(v[2 * i], v[2 * i + 1]);
+        std::string mon;
+        std::string out;
+        {
+            auto st = filled();
+            const auto sz = st.sizes();
+            out = "S " + std::to_string(st.size()) + " " + std::to_string(sz.first) + " " + std::to_string(sz.second) + " " + b01(st.empty());
+            if (st.size() != n || sz.first + sz.second != n || st.empty() != (n == 0)) mon += " !stash-size";
+        }
+        {
+            auto st = filled();
+            const auto ix = st.build_member_to_parent_index();
+            out += " | M " + index_str(ix, true, probes, oracle, mon);
+        }
+        {
+            auto st = filled();
+            const auto ix = st.build_parent_to_member_index();
+            out += " | P " + index_str(ix, false, probes, oracle, mon);
+        }
+        {
+            auto st = filled();
+            const auto ixs = st.build_indexes();
+            out += " | BM " + index_str(ixs.member_to_parent(), true, probes, oracle, mon);
+            out += " | BP " + index_str(ixs.parent_to_member(), false, probes, oracle, mon);
+            out += " | B " + std::to_string(ixs.size()) + " " + b01(ixs.empty());
+            if (ixs.size() != oracle.size() || ixs.empty() != oracle.empty()) mon += " !index-size";
+        }
+        return out + mon;
+    }
+
     std::string op(const vec& w) {
+        if (w.size() >= 3 && w[1] == "hist") return hist(w);
         if (w.size() == 2 && w[1] == "reset") {
             live.reset(new osmium::index::RelationsMapStash);
             adds.clear();
